@@ -20,6 +20,7 @@ import ast
 
 from sa import asdl
 from sa import core
+from sa import tpl
 from sa import pat
 from sa import pycfg
 from sa import rules_qn
@@ -67,6 +68,49 @@ def analysis_traversal(model, rep, rule='ACT-TRAV', order_rule='ACT-ORDER'):
       'read of an outer variable of the same name (`[.. for x in x]`) is dropped')
 
 
+SCOPE_SETS = ('read', 'modified', 'bound', 'deleted', 'globals', 'nonlocals', 'annotations',
+              'params', 'isolated_names')
+
+
+def scope_grows(model, rep, rule):
+  """What one statement recorded in a scope must not be taken back by a later
+  one: hiding a name from the *parent* is done by finalize (isolated_names are
+  subtracted on the way up), never by removing it from a set -- a removal also
+  drops what other statements of the block had recorded under that name."""
+  m = model.module(ACT)
+  shrink_calls = ('discard', 'remove', 'pop', 'clear', 'difference_update',
+                  'intersection_update', 'symmetric_difference_update')
+  bad = []
+  n = 0
+  for fi in m.all_functions():
+    for x in core.walk_no_nested(fi.node):
+      recv = None
+      if isinstance(x, ast.Call) and isinstance(x.func, ast.Attribute) and \
+          x.func.attr in shrink_calls:
+        recv = x.func.value
+      elif isinstance(x, ast.AugAssign) and isinstance(x.op, (ast.Sub, ast.BitAnd,
+                                                               ast.BitXor)):
+        recv = x.target
+      elif isinstance(x, ast.Delete):
+        for t in x.targets:
+          if isinstance(t, ast.Subscript):
+            recv = t.value
+      if recv is None:
+        continue
+      rt = tpl.xnorm(fi, recv, x)
+      if any(rt.endswith('.' + a) for a in SCOPE_SETS) and ('scope' in rt or
+                                                             rt.startswith('self.')):
+        n += 1
+        bad.append('%s: %s' % (fi.qualname, core.norm(x)[:80]))
+  rep.check(not bad, rule, '%s:no-removal-from-scope-sets' % ACT,
+            'a symbol set of a scope is shrunk in place: names other statements '
+            'of the same block recorded are lost with it (they never reach the '
+            'enclosing scopes: liveness, reserved names and state selection read '
+            'them there)', {'removals': bad},
+            witness='n = 0 ... try: ... except E as n: ... -- the earlier uses of n '
+            'disappear from the loop\'s scope')
+
+
 def check(model, rep, tier):
   rep.not_decided = ('exact equality with symtable on every program; dynamic '
                      'per-statement read/write sets; comprehension targets and '
@@ -76,6 +120,7 @@ def check(model, rep, tier):
   rep.rule('CTX-TABLE', 'context table of _track_symbol', floor=4)
   rep.rule('PARAMS', 'parameter kinds and defaults', floor=3)
   rep.rule('FINALIZE', 'upward propagation formulas', floor=8)
+  rep.rule('SCOPE-GROWS', 'the symbol sets of a scope only ever grow', floor=1)
   rep.rule('SC-ASDL', 'field types', floor=30)
   rep.rule('ACT-TRAV', 'every handler of the activity analysis and of the '
            'qualified-name resolver visits every field that can hold a symbol, '
@@ -371,6 +416,9 @@ def check(model, rep, tier):
               'annotations and defaults belong to the defining scope, the '
               'parameter declarations to the function\'s own (isolated) scope',
               line=h.node.lineno)
+
+  # ---------------------------------------------------------------- SCOPE-GROWS
+  scope_grows(model, rep, 'SCOPE-GROWS')
 
   # ---------------------------------------------------------------- FINALIZE
   sc = model.cls(ACT, 'Scope')
